@@ -91,6 +91,27 @@ fn main() {
                      if reconf == 0 { format!("flags ci={} dfa={}", ci1, d1) } else { format!("add_pattern({:?})", p1) }, name, n1, want1 as usize, n2, want2 as usize);
             if n1 != want1 as usize || n2 != want2 as usize { v.push("dropped_iff_current_configuration_matches"); }
         }
+        "c13_stack" => {
+            use metrics_util::layers::{FanoutBuilder, PrefixLayer, Stack};
+            let (pin, pout) = (text(&plan, "pin"), text(&plan, "pout"));
+            let kind = ["counter", "gauge", "histogram"][inp("op") as usize];
+            let fan = FanoutBuilder::default().add_recorder(rec(1)).add_recorder(rec(2)).build();
+            // Stack::push: the last pushed layer is the outermost one
+            let stack = Stack::new(fan).push(PrefixLayer::new(pin.clone())).push(PrefixLayer::new(pout.clone()));
+            let dop = format!("describe_{}", kind);
+            let rop = format!("register_{}", kind);
+            apply(&stack, &dop, &name);
+            apply(&stack, &rop, &name);
+            apply(&stack, &rop, &name);
+            let want = format!("{}.{}.{}", pin, pout, name);
+            let got = log.lock().unwrap().clone();
+            println!("stack [fanout(r1, r2) <- prefix {:?} <- prefix {:?}]: {} / {} x2 of {:?}: delivered {:?}; expected name {:?}", pin, pout, dop, rop, name, got, want);
+            for r in [1usize, 2] {
+                let mine: Vec<_> = got.iter().filter(|x| x.0 == r).collect();
+                let ok = mine.len() == 3 && mine[0].1 == dop && mine[1].1 == rop && mine[2].1 == rop && mine.iter().all(|x| x.2 == want);
+                if !ok { v.push("composition_delivers_each_operation_once_with_both_prefixes"); }
+            }
+        }
         s => panic!("unknown scenario {}", s),
     }
     finish(&v, &plan)
